@@ -17,7 +17,18 @@ SCRATCH = os.path.join(common.ROOT, ".scratch")
 os.makedirs(SCRATCH, exist_ok=True)
 
 
+SNAPSHOT_NAMES = ["c18-%d.json", "c18-%d", "c18-%d.snap.v2", ".c18-%d"]
+
+
 def _remove_snapshot_file():
+    for name in SNAPSHOT_NAMES:
+        for extra in ("", ".json"):
+            q = os.path.join(SCRATCH, name % os.getpid()) + extra
+            if os.path.exists(q) and q != os.path.join(SCRATCH, "c18-%d.json" % os.getpid()):
+                try:
+                    os.remove(q)
+                except OSError:
+                    pass
     p = os.path.join(SCRATCH, "c18-%d.json" % os.getpid())
     if os.path.exists(p):
         os.remove(p)
@@ -304,7 +315,8 @@ def _run_book(orc, tick, trading, t0, ops, quiet_mask=0, big_mask=0):
             _, pretty, direction = op
             # one snapshot path per process, deliberately NOT removed between uses: saving over an existing (often
             # longer) file is ordinary usage and must replace it; before the first use it holds a long unrelated text
-            path = os.path.join(SCRATCH, "c18-%d.json" % os.getpid())
+            # the file name is the caller's: with and without an extension, with several dots, hidden
+            path = os.path.join(SCRATCH, SNAPSHOT_NAMES[step % 4] % os.getpid())
             if not os.path.exists(path):
                 with open(path, "w") as fh:
                     fh.write("{" + " " * 60000 + "}")
